@@ -34,7 +34,7 @@ func c14text(p *Pkg, n ast.Node) string {
 }
 
 // decision-relevant assignment targets
-var c14lhs = map[string]bool{"ex": true, "err": true, "ex.stack": true, "tf.exception": true, "handlerResult": true,
+var c14lhs = map[string]bool{"s": true, "ex": true, "err": true, "ex.stack": true, "tf.exception": true, "handlerResult": true,
 	"e1": true, "ret": true, "results[numOut-1]": true, "e": true, "vm.pc": true, "tf.catchPos": true, "tf.finallyPos": true}
 
 type c14skel struct {
@@ -149,7 +149,8 @@ func (s *c14skel) stmt(st ast.Stmt, d int) {
 				s.add(d, "%s", c14text(p, x))
 				return
 			}
-			if t := c14text(p, x); strings.HasPrefix(t, "e.Set(") || strings.HasPrefix(t, "iter.returnIter(") {
+			if t := c14text(p, x); strings.HasPrefix(t, "e.Set(") || strings.HasPrefix(t, "iter.returnIter(") ||
+				strings.Contains(t, "e.val.String()") || strings.Contains(t, "promiseCap.re") || strings.Contains(t, "leaveAbrupt()") {
 				s.add(d, "%s", t)
 				return
 			}
@@ -182,7 +183,7 @@ func (s *c14skel) stmt(st ast.Stmt, d int) {
 			}
 			s.add(d, "%s %s %s(func)", strings.Join(ls, ", "), x.Tok, callee)
 			s.exprFuncLits(x, d+1)
-		} else if keep {
+		} else if keep || strings.Contains(c14text(p, x), "restoreStacks(") {
 			s.add(d, "%s", c14text(p, x))
 		}
 	}
@@ -301,6 +302,15 @@ func genC14(p *Pkg) (map[string]string, error) {
 		{"Runtime", "try", "skel_rtry"},
 		{"", "AssertFunction", "skel_AssertFunction"},
 		{"Runtime", "leave", "skel_leave"},
+		{"Runtime", "leaveAbrupt", "skel_leaveAbrupt"},
+		{"vm", "_restoreStacks", "skel_restoreStacks"},
+		{"vm", "restoreStacks", "skel_restoreStacksWrapper"},
+		{"generatorObject", "step", "skel_generatorObjectStep"},
+		{"generator", "step", "skel_generatorStep"},
+		{"asyncRunner", "step", "skel_asyncRunnerStep"},
+		{"asyncRunner", "start", "skel_asyncRunnerStart"},
+		{"Exception", "Error", "skel_ExceptionError"},
+		{"Exception", "String", "skel_ExceptionString"},
 	} {
 		d := p.FuncDecl(f.recv, f.name)
 		if d == nil {
